@@ -205,6 +205,15 @@ def share_terms():
     for q in G.all_child_kinds():
         s = G.instance(q, G.Rot(2))
         out.append((f'share2:{q}', ('+', ('exp', ('*', ('num', 0.25), s)), ('*', s, ('-', s, ('num', 1.0)))), 'two-parents', q))
+    # one condition shared by two (three) terms of a conditional sum, and by a conditional sum and another parent
+    types, ctor = G.KINDS['condsum']
+    for ci, cond in enumerate(G.FILL['cond']):
+        if cond[0] == 'bool':
+            continue
+        for shared_slots in ((0, 2), (2, 4), (0, 2, 4)):
+            rot = G.Rot(ci)
+            vals = [cond if i in shared_slots else rot.take(t) for i, t in enumerate(types)]
+            out.append((f'share-condition:{R.show(cond)[:24]}:{shared_slots}', ctor(vals), 'condsum-conditions', 'cond'))
     return out
 
 
@@ -262,7 +271,8 @@ def renumber_cases():
             slots = [i for i, t in enumerate(types) if t in ('any', 'cond')]
             for sl in (slots[0], slots[-1]):
                 for alone in ('get_value_c', 'get_value_and_derivatives', 'values_from_database',
-                              'refused:hessian-without-gradient', 'refused:variables-without-database'):
+                              'refused:hessian-without-gradient', 'refused:variables-without-database',
+                              'second-model', 'null-loglikelihood'):
                     for then in ('simulate', 'prepared'):
                         out.append((si, p, sl, alone, then))
     return out
@@ -309,6 +319,34 @@ def _renumber(idx, rec):
         elif alone == 'get_value_and_derivatives':
             sub_e.get_value_and_derivatives(database=db, gradient=False, hessian=False, bhhh=False, aggregation=False,
                                             prepare_ids=True)
+        elif alone == 'second-model':
+            # the same formula objects become part of a second model, on a table with the columns in another order and with
+            # one more formula (other parameters): the first model must keep giving the same values
+            if then != 'simulate':
+                rec.case(None, (tag, 'n/a'), outcome='not-applicable')
+                return
+            extra_e = R.Builder(G.betas_spec()).build(('+', ('*', ('beta', 'b10'), ('var', 'x2')), ('beta', 'b_a')))
+            db2 = make_db(data, list(reversed(G.COLUMNS)))
+            b2 = make_biogeme(db2, {'extra': extra_e, 'parent': parent_e, 'sub': sub_e})
+            got2 = [float(v) for v in b2.simulate({n: full[n] for n in b2.free_beta_names})['parent']]
+            if not (len(got2) == len(want) and all(R.close(a, b_) for a, b_ in zip(got2, want))):
+                rec.violation(f'C01|value-in-a-second-model-built-on-the-same-formula-objects|then={then}',
+                              f'{tag}: second model gives {got2} expected {want}', case, expected=want, observed=got2)
+        elif alone == 'null-loglikelihood':
+            # the library's own helper that evaluates another formula on the model's database between two uses
+            if then != 'simulate':
+                rec.case(None, (tag, 'n/a'), outcome='not-applicable')
+                return
+            from biogeme.expressions.elementary_types import TypeOfElementaryExpression as T
+            shared = list(parent_e.dict_of_elementary_expression(T.VARIABLE).values())     # the model's own Variable objects
+            if not shared:
+                rec.case(None, (tag, 'n/a'), outcome='not-applicable')
+                return
+            try:
+                b.calculate_null_loglikelihood({i + 1: v for i, v in enumerate(shared)})
+            except Exception as e:
+                if is_engine_error(e):
+                    raise
         elif alone.startswith('refused:'):
             # a request the library refuses with its own error: nothing is evaluated, and nothing may be left behind
             from biogeme.exceptions import BiogemeError
